@@ -178,7 +178,10 @@ pub fn gen_plan(r: &mut Rng, toks: &[String], allow_special: bool, next_probe: &
             }
             2 => {
                 let cands: Vec<usize> = (0..n).filter(|i| is_block_style(&toks[*i])).collect();
-                if !cands.is_empty() {
+                if r.chance(1, 12) {
+                    // on an opcode that is not block-like: must be rejected, not silently accepted
+                    plan.push(Step::EmptyBlockAlt { idx: r.below(n) });
+                } else if !cands.is_empty() {
                     plan.push(Step::EmptyBlockAlt { idx: *r.pick(&cands) });
                 }
             }
@@ -221,8 +224,8 @@ where
         match st {
             Step::At { idx, mode, probes } => {
                 goto(it, *idx);
-                it.set_instrument_mode(im(*mode));
                 ops.borrow_mut().push(format!("m~{idx}~{}", MODES[*mode].0));
+                it.set_instrument_mode(im(*mode));
                 for p in probes {
                     for o in probe_ops(*p) {
                         ops.borrow_mut().push(format!("i~{idx}~{}", crate::optok::tok_of(&o)));
@@ -232,13 +235,13 @@ where
             }
             Step::EmptyAlt { idx } => {
                 goto(it, *idx);
-                it.empty_alternate();
                 ops.borrow_mut().push(format!("ea~{idx}"));
+                it.empty_alternate();
             }
             Step::EmptyBlockAlt { idx } => {
                 goto(it, *idx);
-                it.empty_block_alt();
                 ops.borrow_mut().push(format!("eba~{idx}"));
+                it.empty_block_alt();
             }
             Step::Func { exit, probes } => {
                 goto(it, 0);
@@ -278,8 +281,8 @@ fn apply_modifier<'a>(m: &mut Module<'a>, fid: FunctionID, plan: &[Step], last: 
     for st in plan {
         match st {
             Step::At { idx, mode, probes } => {
-                fm.set_instrument_mode_at(im(*mode), Location::Module { func_idx: fid, instr_idx: *idx });
                 ops.borrow_mut().push(format!("m~{idx}~{}", MODES[*mode].0));
+                fm.set_instrument_mode_at(im(*mode), Location::Module { func_idx: fid, instr_idx: *idx });
                 for p in probes {
                     for o in probe_ops(*p) {
                         ops.borrow_mut().push(format!("i~{idx}~{}", crate::optok::tok_of(&o)));
@@ -288,12 +291,12 @@ fn apply_modifier<'a>(m: &mut Module<'a>, fid: FunctionID, plan: &[Step], last: 
                 }
             }
             Step::EmptyAlt { idx } => {
-                fm.empty_alternate_at(Location::Module { func_idx: fid, instr_idx: *idx });
                 ops.borrow_mut().push(format!("ea~{idx}"));
+                fm.empty_alternate_at(Location::Module { func_idx: fid, instr_idx: *idx });
             }
             Step::EmptyBlockAlt { idx } => {
-                fm.empty_block_alt_at(Location::Module { func_idx: fid, instr_idx: *idx });
                 ops.borrow_mut().push(format!("eba~{idx}"));
+                fm.empty_block_alt_at(Location::Module { func_idx: fid, instr_idx: *idx });
             }
             Step::Func { exit, probes } => {
                 if *exit {
@@ -422,6 +425,51 @@ pub fn branch_reaches_function_label(toks: &[String], i: usize) -> bool {
     targets.iter().any(|d| *d == depth)
 }
 
+/// index of the instruction that opens the construct `depth` levels out of instruction `i` (None = the function body)
+pub fn opener(toks: &[String], i: usize, depth: usize) -> Option<usize> {
+    let mut need = depth as i64;
+    let mut k = i;
+    while k > 0 {
+        k -= 1;
+        match toks[k].split(':').next().unwrap() {
+            "end" => need += 1,
+            "block" | "loop" | "if" => {
+                if need == 0 {
+                    return Some(k);
+                }
+                need -= 1;
+            }
+            _ => {}
+        }
+    }
+    None
+}
+
+pub fn branch_targets(t: &str) -> Vec<usize> {
+    if let Some(x) = t.strip_prefix("br_table:") {
+        x.replace('/', ".").split('.').filter(|s| !s.is_empty()).filter_map(|s| s.parse().ok()).collect()
+    } else {
+        t.split(':').nth(1).and_then(|s| s.parse().ok()).into_iter().collect()
+    }
+}
+
+/// the largest number of flagged semantic-after bodies that one `end` has to dispatch
+pub fn max_flagged_per_block(toks: &[String], plan: &[Step]) -> usize {
+    let mut counts: HashMap<Option<usize>, usize> = HashMap::new();
+    let mut seen = std::collections::HashSet::new();
+    for st in plan {
+        if let Step::At { idx, mode: 3, .. } | Step::InjectAt { idx, mode: 3, .. } = st {
+            if is_branch(&toks[*idx]) && seen.insert(*idx) {
+                for d in branch_targets(&toks[*idx]) {
+                    *counts.entry(opener(toks, *idx, d)).or_insert(0) += 1;
+                }
+            }
+        }
+    }
+    // the same branch instrumented twice still has one flag per instrumentation call sequence; counts are per target entry
+    counts.values().cloned().max().unwrap_or(0)
+}
+
 fn probes_tokens(ps: &[i32]) -> Vec<String> {
     ps.iter().flat_map(|p| vec![format!("i32.const:{p}"), "drop".to_string()]).collect()
 }
@@ -527,6 +575,7 @@ pub fn run(ctx: &mut Ctx) {
                 ctx.impl_line(&format!("lower {case} PANIC"));
                 // a rejection at the call is what C22 asks for when the opcode does not take the mode
                 let legit = plan.iter().any(|st| match st {
+                    Step::EmptyBlockAlt { idx } => !is_block_style(&toks[*idx]),
                     Step::At { idx, mode, .. } | Step::InjectAt { idx, mode, .. } => match mode {
                         3 => !(is_block_style(&toks[*idx]) || is_branch(&toks[*idx])),
                         4 | 5 | 6 => !is_block_style(&toks[*idx]),
@@ -555,7 +604,12 @@ pub fn run(ctx: &mut Ctx) {
                     | Step::At { mode: 6, .. } | Step::InjectAt { mode: 6, .. } | Step::EmptyBlockAlt { .. }));
                 if !risky {
                     if let Err(e) = wasmparser::Validator::new_with_features(wasmparser::WasmFeatures::all()).validate_all(b) {
-                        fails.push(("C15,C16", "output-invalid".into(), e.to_string()));
+                        if max_flagged_per_block(&toks, &plan) >= 3 {
+                            // known finding F27: `if .. else .. else .. end`
+                            fails.push(("C16,C20", "output-invalid-three-flagged-bodies-at-one-end".into(), e.to_string()));
+                        } else {
+                            fails.push(("C15,C16,C20", "output-invalid".into(), e.to_string()));
+                        }
                     }
                 }
                 let has_func_level = plan.iter().any(|s| matches!(s, Step::Func { .. }));
@@ -631,6 +685,13 @@ pub fn run(ctx: &mut Ctx) {
                                         format!("probe {p} injected at {idx} ({}) is not in the output", toks[*idx]),
                                     ));
                                 }
+                            }
+                        }
+                    }
+                    for st in &plan {
+                        if let Step::EmptyBlockAlt { idx } = st {
+                            if !is_block_style(&toks[*idx]) {
+                                fails.push(("C22", "empty_block_alt-on-non-block-opcode-accepted".into(), format!("at {idx} ({})", toks[*idx])));
                             }
                         }
                     }
